@@ -49,6 +49,11 @@ CHECKS = {
          "Model checking of the planner design plus conformance of the real service on enumerated configurations: a violation is an observed subscription list or reset payload that fails a clause of the reference.",
          "The recording connection stands for the NATS server; NATS subject matching is the reference's NMatches; ownership entries that are not valid subjects are not judged.",
          "4.2 C09"),
+ "C10": ("storesim", "model_checking",
+         "TLA+ reference client (ResClient.tla: fold of change/add/remove/create/delete events with index-range checks): TLC model-checks the fold against a reference differ for all pairs of the bound (MCClient); every store mutation on the real store handler - exhaustively all ordered pairs of short collections/models, and create/update/delete histories over 24 handler configurations - is recorded as (get before, published events, get after) and judged by TLC (TraceClient.tla clauses coherent/silent/minimal/rid)",
+         "Bounded-exhaustive conformance of the real diffing with a model-checked client semantics; a violation is a real mutation after which a client that applied the published events differs from a fresh get, an event out of range when applied, an event for an unchanged representation, or an event on a wrong resource id.",
+         "Values are canonical JSON texts (atoms); a create event makes the client fetch; served representation = response to a real get request.",
+         "4.3 C10"),
  "C15": ("qevent", "model_checking",
          "TLA+ query-event specification (ResQueryEvent.tla: subscribe, deliver, listener take/enqueue, timer, drain, end-with-nil, callback, release): TLC model-checks AtMostOneReply/NilAtMostOnce/NilLast/FailedSub and the liveness properties Answered/Ends/Released; counterexamples of the shipped design (ListenerEndsQuery=FALSE) and tlc -simulate behaviours of the repaired design are replayed on the real service through gates in the listener and the expiry path; random histories, subscription failures, long histories; one record per real query event judged by TLC (TraceQueryObs.tla)",
          "Exhaustive model checking (3 requests, channel capacity 2, failing subscription) with safety and liveness, bound to the code by gate replay of model behaviours and TLC-judged records of real query events; a violation is a real query event with a missing/duplicate reply, a missing, repeated or non-final nil call, or a listener goroutine left running.",
